@@ -25,9 +25,6 @@ let state_str (b : buffer) =
   Printf.sprintf "(st %s %d %d %s)" (hb b.buf) (int_of_nat b.validUntil) (int_of_mode b.bmode)
     (if b.markerOpen then "1" else "0")
 
-(* is the payload of this write acceptable for raw mode (RawOK)? *)
-let raw_payload_ok (p : bytes) = redactableb p
-let raw_payload_linesafe (p : bytes) = linesafe (lex p)
 
 let h_buffer args : fail list =
   match args with
@@ -43,16 +40,8 @@ let h_buffer args : fail list =
       | L [A "step"; o; res; L [A "st"; ibuf; ivu; imode; iopen]] when not !stop ->
         incr nsteps;
         let o' = op_of_sexp o in
-        (* RawOK bookkeeping *)
-        (match o' with
-         | OWrite p when !st.bmode = MRaw ->
-           if not (raw_payload_ok p) then rawok := false;
-           if not (raw_payload_linesafe p) then rawls := false
-         | OWriteByte c when !st.bmode = MRaw -> if int_of_n c >= 128 then rawok := false
-         | OWriteRune r when !st.bmode = MRaw ->
-           let e = encode_rune r in
-           if not (raw_payload_ok e) then rawok := false
-         | _ -> ());
+        (* RawOK bookkeeping (same predicate as the theorems' hypothesis) *)
+        if not (op_ok !st o') then begin rawok := false; rawls := false end;
         let (st', ob) = step !st o' in
         (match res with
          | L [A "panic"] ->
@@ -94,6 +83,9 @@ let h_buffer args : fail list =
                Printf.sprintf "state after %s (step %d): model=%s impl=(st %s %s %s %s)" (Sexp.to_string o) !nsteps
                  (state_str st') (atom ibuf) (atom ivu) (atom imode) (atom iopen)));
            if not same then stop := true;
+           (* the invariant the C01/C03 theorems rest on, evaluated on the model state
+              (= the implementation state when same) *)
+           if !rawok then add (k "inv" (invb st') (fun () -> "invariant invb false after " ^ Sexp.to_string o ^ ": " ^ state_str st'));
            (* C13: accessors are pure *)
            (match o' with
             | OLen | OCap | OStr | ORS | ORB | OGetMode ->
